@@ -556,6 +556,10 @@ class C03Check:
         fault_rate = ch.choose([0.0, 0.3], "sw.frate") if faulted else 0.0
         preempt_k = ch.choose([0, 0, 10], "sw.preempt") if faulted else 0
         case = Case(ch, allow_unnamed=True)
+        if case.unnamed and uid_mode == "repeat":
+            # without parameter names the fresh-symbol suffix is all that separates two parameters: an all-equal suffix stream
+            # (impossible for uuid4) would merge them - not a fault halmos has to survive
+            uid_mode = "sequential"
         rt, cj, bom = case.build()
         # confirm the construction on the reference EVM
         wit = case.reference_outcome(rt, case.calldata(case.w, case.wlen, case.wbytes))
@@ -678,7 +682,8 @@ class C03Check:
                    descriptor=dict(sig=case.sig, guards=[list(map(lambda x: hex(x) if isinstance(x, int) and x > 9 else x, g)) for g in case.guards],
                                    reachable=case.reachable, leaf=case.leaf, other=case.other, tail=case.tail,
                                    witness=[hex(x) for x in case.w], verdict=verdict, faulted=faulted, solver=solver, layout=layout,
-                                   cache=cache, threads=threads, unknown_rate=unknown_rate, fault_rate=fault_rate,
+                                   cache=cache, threads=threads, unknown_rate=unknown_rate, fault_rate=fault_rate, uid_mode=uid_mode,
+                                   unnamed=case.unnamed,
                                    queries=[(h["file"], h["kind"], h["truth"]) for h in out.stub.history][:8]))
         if keep_log:
             res["log"] = [("stdout", out.stdout[-1500:]), ("warnings", out.warnings[-10:]), ("code", rt.hex())] + list(out.sim.log[-40:])
